@@ -98,6 +98,30 @@ def part_b(ck, replay=None):
         shutil.rmtree(tmpd, ignore_errors=True)
 
 
+def part_d(ck, replay=None):
+    """the lazily created registry clients of CombinedNativeClient (LazyClient.tla): concurrent first lookups share one
+    client, hence one request cache; stress trials on the real client against a local registry"""
+    r = vf.require_ok(vf.tlc("LazyClient", "LazyClient.cfg", workers=4, collect=False, timeout=300), "LazyClient.cfg")
+    ck.add_tlc("LazyClient.cfg", r, "G = 4 Hold = TRUE")
+    s = vf.tlc("LazyClient", "LazyClient-dev.cfg", workers=2, collect=False, timeout=300)
+    if s.violated != "OneFetchPerKey":
+        raise vf.NotAVerdict("LazyClient: the deviation (construction outside the mutex) does not violate OneFetchPerKey on the model")
+    trials = 3000 if ck.thorough() else 600
+    obs = vf.run_harness("vconc", "lazyclient", [], args=["-a", "trials=%d" % trials, "-a", "g=4"], timeout=1500, race=ck.thorough())
+    if len(obs) != trials:
+        raise vf.NotAVerdict("lazyclient ran %d of %d trials" % (len(obs), trials))
+    if any(o["failed"] for o in obs):
+        raise vf.NotAVerdict("lazyclient: lookups against the local registry failed: %s" % [o.get("err") for o in obs if o["failed"]][:2])
+    bad = [o for o in obs if o["fetches"] != 1 or o["refetch_after"] != 0]
+    for o in bad[:3]:
+        ck.violation("%d concurrent first lookups of one Maven key on a fresh CombinedNativeClient fetched it %d time(s) (and %d more afterwards): the lookups "
+                     "did not share one client / request cache [%d of %d trials]" % (o["callers"], o["fetches"], o["refetch_after"], len(bad), trials),
+                     {"part": "d", "trial": o, "bad_trials": len(bad), "trials": trials})
+    ck.count(trials)
+    ck.cov["traces_validated_against_impl"] += trials
+    ck.cov["lazy_client_trials"] = trials
+
+
 def main():
     a = args.parse()
     ck = vf.Check("C16", "model_checking", tier=a.tier, seed=a.seed)
@@ -106,6 +130,8 @@ def main():
         replay = json.load(open(a.replay))["replay"]
     if replay is None or replay.get("part") == "b":
         part_b(ck, replay)
+    if replay is None or replay.get("part") == "d":
+        part_d(ck, replay)
     try:
         import c16_a
         if replay is None or replay.get("part") == "a":
